@@ -237,13 +237,16 @@ impl FixtureDatabase {
                     "Fixture {} is imported in conftest.py: {:?}",
                     fixture_name, conftest_path
                 );
-                // Get any matching definition that passes the filter
-                if let Some(def) = definitions.iter().find(|def| filter(def)) {
+                // Return the definition from the module the conftest actually imports
+                // (not just any definition that happens to carry the same name)
+                if let Some(def) =
+                    self.find_imported_definition(fixture_name, &conftest_path, &filter)
+                {
                     info!(
                         "Found imported fixture {} via conftest.py: {:?} (original: {:?})",
                         fixture_name, conftest_path, def.file_path
                     );
-                    return Some(def.clone());
+                    return Some(def);
                 }
             }
 
@@ -540,11 +543,13 @@ impl FixtureDatabase {
                     for fixture_name in imported_fixtures {
                         if !seen_names.contains(&fixture_name) {
                             // Get the original definition for this imported fixture
-                            if let Some(definitions) = self.definitions.get(&fixture_name) {
-                                if let Some(def) = definitions.first() {
-                                    available_fixtures.push(def.clone());
-                                    seen_names.insert(fixture_name);
-                                }
+                            if let Some(def) = self.find_imported_definition(
+                                &fixture_name,
+                                &conftest_path,
+                                |_| true,
+                            ) {
+                                available_fixtures.push(def);
+                                seen_names.insert(fixture_name);
                             }
                         }
                     }
